@@ -1534,7 +1534,16 @@ def walk_level(ctx, tools, stats):
         stats["known_walk"][key] = stats["known_walk"].get(key, 0) + 1
         ctx.violation(key, what, rp)
 
-    for (spec, img, edges, inums, label), ml, cl in zip(specs, model, current):
+    plain_tools, ptools = tools, pool_tools(tools)
+    for wi, ((spec, img, edges, inums, label), ml, cl) in enumerate(zip(specs, model, current)):
+        # every 5th graph (by index: diamond4, chain:<limit>, ...), one more shared sub-directory and chain:<limit+1> go through
+        # the pool-configured tools instead; the model's answer and the comparison are the same
+        in_pool = wi % 5 == 2 or label in ("shared:two-parents", "chain:%d" % (limit + 1))
+        tools = ptools if in_pool else plain_tools
+        conf = "pool" if in_pool else "malloc"
+        if in_pool:
+            stats["pool_walk_graphs"] = stats.get("pool_walk_graphs", 0) + 1
+            stats.setdefault("pool_walk_labels", {})[label.split(":")[0]] = stats.get("pool_walk_labels", {}).get(label.split(":")[0], 0) + 1
         mm, cm = re.match(pat, ml), re.match(pat, cl)
         if not mm or not cm:
             ctx.violation("corr:walk:parse", "model answered %r / %r" % (ml[:200], cl[:200]), {"spec": spec[:2000]}, found_input=False)
@@ -1548,6 +1557,7 @@ def walk_level(ctx, tools, stats):
         img_rp = base64.b64encode(img).decode() if len(img) < 400000 else "(walk-level case %s, rebuilt by the check)" % label
         # rdsquashfs -d : fill_dir
         r = run_tool(ctx, [str(tools["rdsquashfs"]), "-d", str(p)], env, 60 if chain else 20, keep_all=chain)
+        stats["pool_walk_runs"] = stats.get("pool_walk_runs", 0) + (1 if in_pool else 0)
         # one line per tree node; the root directory itself ("dir / ...", printed by newer describe.c) is not a node below the root
         cnt = len([l for l in r["out"].splitlines() if l.split(" ")[0] in ("dir", "file", "slink", "nod", "pipe", "sock")
                    and l.split(" ")[1:2] not in (["/"], ['"/"'])])
@@ -1562,7 +1572,7 @@ def walk_level(ctx, tools, stats):
         graph = {i: [j for j in e if j >= 0] for i, e in enumerate(edges)}
         big = (F.tree_size(graph, 0) or 0) > 200000
         if impl != mm.group(1) and not big:
-            rp = {"kind": "image", "image_b64": img_rp, "cmd": ["rdsquashfs", "-d"], "model": ml, "model_current": cl, "case": label,
+            rp = {"kind": "image", "image_b64": img_rp, "cmd": ["rdsquashfs", "-d"], "model": ml, "model_current": cl, "case": label, "configuration": conf,
                   "impl_stdout": r["out"][:2000], "impl_stderr": r["err"][:1000], "graph": [edges, inums] if not chain else label}
             key = walk_known_key(mm.group(1), cm.group(1), impl)
             if key:
@@ -1576,12 +1586,13 @@ def walk_level(ctx, tools, stats):
             if chain:
                 break                                   # paths longer than PATH_MAX: nothing to unpack or compare
             r2 = run_tool(ctx, cmd, env, 20)
+            stats["pool_walk_runs"] = stats.get("pool_walk_runs", 0) + (1 if in_pool else 0)
             shutil.rmtree(d / "un", ignore_errors=True)
             died = classify_tool_failure(nm, r2, img)[0] != "ok"        # sanitizer report, signal, timeout 
             wrong = (mm.group(1).startswith("err") and r2["rc"] == 0)
             if (died or wrong) and not big:
                 rp = {"kind": "image", "image_b64": img_rp, "cmd": [nm.split()[0]] + ([nm.split()[1]] if " " in nm else []),
-                      "model": ml, "model_current": cl, "stderr": r2["err"][:1500], "graph": [edges, inums]}
+                      "model": ml, "model_current": cl, "stderr": r2["err"][:1500], "graph": [edges, inums], "configuration": conf}
                 if wrong and not died and cm.group(1).startswith("ok") and walk_known_key(mm.group(1), cm.group(1), cm.group(1)):
                     known(walk_known_key(mm.group(1), cm.group(1), cm.group(1)),
                           "%s reads a tree the repaired fill_dir refuses (%s; case %s)" % (nm, mm.group(1), label), rp)
@@ -1596,6 +1607,7 @@ def walk_level(ctx, tools, stats):
                 continue
             cyc_budget -= 1
         r = run_tool(ctx, [str(tools["sqfs2tar"]), str(p)], env, 6 if cyclic else (120 if chain else 20), tar_count=True)
+        stats["pool_walk_runs"] = stats.get("pool_walk_runs", 0) + (1 if in_pool else 0)
         want, cur = mm.group(2), cm.group(2)
         if r["rc"] == 0:
             impl = "ok %d" % r["count"]
@@ -1612,7 +1624,7 @@ def walk_level(ctx, tools, stats):
         stats["walk_tar_" + impl.split()[0]] = stats.get("walk_tar_" + impl.split()[0], 0) + 1
         if impl == want or (want.startswith("err") and impl == "err other"):
             continue
-        rp = {"kind": "image", "image_b64": img_rp, "cmd": ["sqfs2tar"], "model": ml, "model_current": cl, "impl": impl, "case": label}
+        rp = {"kind": "image", "image_b64": img_rp, "cmd": ["sqfs2tar"], "model": ml, "model_current": cl, "impl": impl, "case": label, "configuration": conf}
         key = walk_known_key(want, cur, impl)
         if key:
             known(key, "sqfs2tar delivers %s where the repaired recursive iterator answers %s (case %s)" % (impl, want, label), rp)
@@ -2007,6 +2019,29 @@ def tool_level(ctx, tools, api, harness, stats):
             lab, img, _ = bases[k % len(bases)]
             m, desc = mutate_bytes(rng, img)
             images.append((lab + ":byte", m, desc))
+    # /repo's default configuration (pool allocator): every 5th image (by index, no rng draw) and every second hostile-count
+    # (`wd_`) image go through the pool-configured rdsquashfs / sqfs2tar / sqfsdiff instead of the plain-malloc ones; the two
+    # structural probes (dag: 2^27 tree nodes behind one visited set, 40000-level chain) run a second time against them.
+    # Same jobs, same classification of the outcomes.
+    nmut_end = len(images)
+    pool_idx, dup_idx, wd_seen = set(), set(), 0
+    for i in range(nmut_end):
+        lab = images[i][0]
+        if lab.startswith("wd_"):
+            wd_seen += 1
+            if wd_seen % 2 == 0:
+                pool_idx.add(i)
+        elif lab.startswith(("t2_probe:", "t1_probe:")):
+            images.append(images[i])
+            dup_idx.add(len(images) - 1)
+            pool_idx.add(len(images) - 1)
+        elif i % 5 == 4:
+            pool_idx.add(i)
+    ptools = pool_tools(tools)
+    pool_stat = {"images": len(pool_idx), "runs": 0, "hostile_count_images": sum(1 for i in pool_idx if images[i][0].startswith("wd_")),
+                 "probes": sorted(images[i][0] for i in dup_idx), "valid_images": sum(1 for i in pool_idx if i < nvalid and images[i][0].endswith(":valid")),
+                 "outcomes": {}}
+    stats["pool_tool"] = pool_stat
     stats["tool_images"] = len(images)
     stats["tool_images_valid"] = nvalid
     ref = ctx.scratch / "ref.sqfs"
@@ -2022,11 +2057,13 @@ def tool_level(ctx, tools, api, harness, stats):
         p.write_bytes(img)
         out = []
         try:
-            jobs = tool_jobs(tools, api, p, ref, wd / "un", idx)
+            jobs = tool_jobs(ptools if idx in pool_idx else tools, api, p, ref, wd / "un", idx)
+            if idx in pool_idx:
+                jobs = [j for j in jobs if j[0] != "api"] if idx in dup_idx else jobs
             if lab.split(":")[-1].startswith("t4_"):
                 # smallest directory cycles: every recursive tool mode
                 jobs = [j for j in jobs if j[0] in ("rdsquashfs -d", "rdsquashfs -u", "sqfsdiff", "sqfs2tar")]
-                jobs.append(("sqfsdiff self", [str(tools["sqfsdiff"]), "-a", str(p), "-b", str(p)]))
+                jobs.append(("sqfsdiff self", [str((ptools if idx in pool_idx else tools)["sqfsdiff"]), "-a", str(p), "-b", str(p)]))
             elif lab.split(":")[-1].startswith("t2_") or lab.startswith("t2_"):
                 jobs = [j for j in jobs if j[0] in ("rdsquashfs -d", "sqfs2tar")]
             elif lab.startswith("t1_"):
@@ -2039,7 +2076,7 @@ def tool_level(ctx, tools, api, harness, stats):
                 jobs = [j for j in jobs if j[0] in ("rdsquashfs -x", "rdsquashfs -x2", "rdsquashfs -uXCOT", "sqfs2tar", "api")]
             elif lab.startswith(("wd_frag", "wd_inode")):
                 jobs = [j for j in jobs if j[0] in ("rdsquashfs -c", "rdsquashfs -u", "sqfs2tar", "sqfsdiff", "api")]
-            if quick and idx >= nvalid and idx % 3 != 0:
+            if quick and idx >= nvalid and idx % 3 != 0 and idx not in dup_idx:
                 # the option variants of unpack / sqfs2tar: every valid image, a third of the mutated ones
                 jobs = [j for j in jobs if j[0] not in ("rdsquashfs -uXCOT", "sqfs2tar -d", "sqfs2tar -dk", "sqfs2tar -r")]
             for name, cmd in jobs:
@@ -2086,6 +2123,9 @@ def tool_level(ctx, tools, api, harness, stats):
                                       {"kind": "image", "image_b64": base64.b64encode(img).decode(), "cmd": ["h_c05_api"]}, found_input=False)
             cls = "exit0" if r["rc"] == 0 else ("error-exit" if key == "ok" else ("known" if key else "FAIL"))
             hist[name + ":" + cls] = hist.get(name + ":" + cls, 0) + 1
+            if idx in pool_idx and name != "api":            # the API driver is linked against the plain library: not a pool run
+                pool_stat["runs"] += 1
+                pool_stat["outcomes"][name.split()[0] + ":" + cls] = pool_stat["outcomes"].get(name.split()[0] + ":" + cls, 0) + 1
             if key == "ok":
                 if idx < nvalid and r["rc"] != 0 and lab.endswith(":valid") and not name.startswith(("rdsquashfs -s", "rdsquashfs -c", "rdsquashfs -x", "sqfsdiff")):
                     # a valid image must be readable (sanity of the forge and of the oracle)
@@ -2094,7 +2134,8 @@ def tool_level(ctx, tools, api, harness, stats):
                 continue
             relcmd = [os.path.basename(cmd[0])] + [a for a in cmd[1:] if not a.startswith(str(ctx.scratch))]
             replay = {"kind": "image", "image_b64": base64.b64encode(img).decode() if len(img) < 400000 else "(probe image, rebuilt by the check: %s)" % lab,
-                      "cmd": relcmd, "tool": name, "mutation": desc, "base": lab, "rc": r["rc"], "stderr": r["err"][-1500:]}
+                      "cmd": relcmd, "tool": name, "mutation": desc, "base": lab, "rc": r["rc"], "stderr": r["err"][-1500:],
+                      "configuration": "pool" if (idx in pool_idx and name != "api") else "malloc"}
             if key:
                 stats["known_tool"][key] = stats["known_tool"].get(key, 0) + 1
                 ctx.violation(key, "%s: %s (image %s %s)" % (name, what, lab, desc[:2]), replay)
@@ -2114,7 +2155,18 @@ def build_all(ctx):
     harness = ctx.cc("h_c05", ["h_c05.c"], flags=["-Wl,--wrap=malloc,--wrap=calloc,--wrap=realloc,--wrap=free"], libs=[str(lib)] + vlib.CODEC_LIBS)
     api = ctx.cc("h_c05_api", ["h_c05_api.c"], libs=[str(lib)] + vlib.CODEC_LIBS)
     tools = {t: ctx.build_tool(t) for t in ("rdsquashfs", "sqfs2tar", "sqfsdiff", "gensquashfs")}
+    # the three readers once more in /repo's default configuration (pool allocator: mempool.c compiled, NO_CUSTOM_ALLOC not
+    # defined): the visited sets of the tree walkers, the dir reader cache and the hard-link filter are rbtrees on that pool
+    tools[POOL] = {t: ctx.build_tool(t, tag="c05pool", custom_alloc=True) for t in ("rdsquashfs", "sqfs2tar", "sqfsdiff")}
     return harness, api, tools
+
+
+POOL = "@pool"
+
+
+def pool_tools(tools):
+    """the tool table of the pool configuration (gensquashfs is only used to make valid images: the plain one)"""
+    return dict(tools, **tools[POOL])
 
 
 def run(ctx):
@@ -2143,6 +2195,20 @@ def run(ctx):
     tool_level(ctx, tools, api, harness, stats)
     t3 = time.time()
     ctx.log("tool level: %d images, %d runs (%.1fs)" % (stats["tool_images"], stats["tool_runs"], t3 - t2))
+    # share of the walk / tool level that ran against /repo's default configuration (pool allocator): a floor, not a hope
+    pt = stats["pool_tool"]
+    q = ctx.quick()
+    pool_runs = pt["runs"] + stats.get("pool_walk_runs", 0)
+    pool_floors = {"tool and walk runs": [pool_runs, 500 if q else 8000], "tool-level images": [pt["images"], 60 if q else 800],
+                   "hostile-count (width) images": [pt["hostile_count_images"], 8], "structural probes (dag, chain)": [len(pt["probes"]), 2],
+                   "valid images": [pt["valid_images"], 1], "walk-level graphs": [stats.get("pool_walk_graphs", 0), 8 if q else 60],
+                   "walk-level graphs with a shared sub-directory": [stats.get("pool_walk_labels", {}).get("shared", 0), 2],
+                   "walk-level chains at the nesting limit": [stats.get("pool_walk_labels", {}).get("chain", 0), 2]}
+    short = ["%s: %d < %d" % (k, v[0], v[1]) for k, v in pool_floors.items() if v[0] < v[1]]
+    if short:
+        raise vlib.CheckFailure("too few runs against /repo's default configuration (pool allocator): " + "; ".join(short))
+    ctx.log("pool configuration: %d tool-level images (%d runs), %d walk-level graphs (%d runs)" % (
+        pt["images"], pt["runs"], stats.get("pool_walk_graphs", 0), stats.get("pool_walk_runs", 0)))
     samples = []
     for i in (3, len(lines) // 3, len(lines) // 2, len(lines) - 2):
         if 0 <= i < len(lines):
@@ -2165,6 +2231,12 @@ def run(ctx):
         "nesting_limit_of_tree": stats.get("nesting_limit_of_tree"), "known_walk_differences": stats["known_walk"],
         "tool_images": stats["tool_images"], "tool_images_valid": stats["tool_images_valid"], "tool_runs": stats["tool_runs"],
         "tool_outcomes": stats.get("tool_hist"), "known_tool_failures": stats["known_tool"],
+        "pool_configuration_runs": pool_runs,
+        "pool_configuration": {"what": "rdsquashfs / sqfs2tar / sqfsdiff built as /repo's configure builds them by default (lib/util/src/mempool.c compiled, "
+                                       "NO_CUSTOM_ALLOC not defined); tool level: image index % 5 == 4 and every second hostile-count image instead of the "
+                                       "plain-malloc tools, the dag / chain probes additionally; walk level: graph index % 5 == 2, shared:two-parents, chain:<limit+1>",
+                               "tool_level": pt, "walk_graphs": stats.get("pool_walk_graphs", 0), "walk_runs": stats.get("pool_walk_runs", 0),
+                               "walk_graph_kinds": stats.get("pool_walk_labels", {}), "floors": pool_floors},
         "generator_self_test": stats.get("sens"), "decompressor_classes": stats.get("codec_classes"), "hostile_block_images": stats.get("codec_tamper_images"), "hostile_count_images": stats.get("width_images"),
         "decompressor_calls": stats.get("codec_calls", 0), "decompressors": stats.get("codecs"), "decompressor_outcomes": stats.get("codec_hist"),
         "decompressor_roundtrips": stats.get("codec_roundtrips", 0), "forge_compressors": stats.get("forge_compressors"),
@@ -2217,7 +2289,8 @@ def replay(ctx, path):
         ref = ctx.scratch / "ref.sqfs"
         ref.write_bytes(F.sample_tree(__import__("random").Random(0)).build())
         cmd = list(rp["cmd"])
-        exe = {"h_c05_api": api}.get(cmd[0], tools.get(cmd[0]))
+        conf_tools = pool_tools(tools) if rp.get("configuration") == "pool" else tools
+        exe = {"h_c05_api": api}.get(cmd[0], conf_tools.get(cmd[0]))
         args = cmd[1:]
         if cmd[0] == "sqfsdiff":
             args = ["-a", str(ref), "-b", str(p)]
